@@ -1,5 +1,5 @@
 (** Proofs about the election model (C14). *)
-From Drummer.Model Require Import Base Election.
+From Drummer.Model Require Import Base Election ElectionSpec.
 From Coq Require Import ZifyN ZifyNat ZifyBool Permutation.
 
 (* ================================================================== *)
@@ -137,13 +137,6 @@ Proof.
   apply IH. apply ev_apply_not_none. exact Hr.
 Qed.
 
-(** a successful campaign CAS against holder [h]: applied, stored, naming [h] as
-    the old holder while [h] was the holder, by somebody else *)
-Definition displaces (h : N) (e : event) : Prop :=
-  match e with
-  | ECas _ self old _ before true Updated _ => old = h /\ holder before = Some h /\ self <> h
-  | _ => False
-  end.
 
 Lemma displaces_inv h e :
   displaces h e ->
@@ -308,8 +301,6 @@ Proof.
     + intros H. left. exists s, rs'. repeat split; auto.
 Qed.
 
-(** what the answers of a turn contain *)
-Definition read_own (id : N) (rs : list resp) : Prop := exists t, In (RRead (Some (id, t))) rs.
 
 Lemma set_leader_info_fields s h t s1 :
   set_leader_info s h t = Some s1 ->
